@@ -941,6 +941,7 @@ def run(ctx: Any, prog: Program) -> None:
 
 
 MUTANTS = [
+    {'id': 'detail_shape_size_never_written', 'file': 'bsp.py', 'find': "                shape_ang = prop.shape_angle\n                shape_size = prop.shape_size\n", 'replace': "                shape_ang = prop.shape_angle\n                shape_size = 1\n", 'expect': 'C11.L3'},
     {'id': 'faceids_rebuilt_by_every_split_faces_writer', 'file': 'bsp.py', 'find': "            if hammer_ids:\n                self.lumps[BSP_LUMPS.FACEIDS].data", 'replace': "            if get_orig_face is not None:\n                self.lumps[BSP_LUMPS.FACEIDS].data", 'expect': 'C11.L26'},
     {'id': 'ok_faceids_guarded_by_faces', 'file': 'bsp.py', 'find': "            if hammer_ids:\n                self.lumps[BSP_LUMPS.FACEIDS].data", 'replace': "            if len(hammer_ids) > 0:\n                self.lumps[BSP_LUMPS.FACEIDS].data", 'expect': None},
     {'id': 'ok_prop_flags_split_into_locals', 'file': 'bsp.py', 'find': "            start = prop_lump.tell()\n", 'replace': "            start = prop_lump.tell()\n            flags_prim = prop.flags.value_prim\n            flags_sec = prop.flags.value_sec\n", 'extra': [{'file': 'bsp.py', 'find': "                0 if version.is_lightmap else prop.flags.value_prim,", 'replace': "                0 if version.is_lightmap else flags_prim,"}, {'file': 'bsp.py', 'find': "                prop_lump.write(struct.pack('<I', prop.flags.value_sec))", 'replace': "                prop_lump.write(struct.pack('<I', flags_sec))"}], 'expect': None, 'note': 'negative control: the two flag halves taken into locals'},
